@@ -334,3 +334,27 @@ pub fn run(ctx: &RunCtx) -> i32 {
     );
     finish(ctx, &stats, &failure, &[("distinct_nontrivial", 1000), ("mutators_refused_NotSupported_with_precondition_met", 100)])
 }
+
+/// C13 part (d): all operations on every path of the exhaustive set; only panics count.
+pub fn panic_sweep() -> Result<u64, Failure> {
+    let env = env().map_err(|m| Failure { message: format!("ABORT: {}", m), replay: json!({}) })?;
+    let paths = path_set(&env.model);
+    let mut n = 0u64;
+    for (i, (p, _)) in paths.iter().enumerate() {
+        let others = ["/a.txt", "/newdest", "", "/dir"];
+        let mut ops = observer_ops(p);
+        ops.extend(mutator_ops(p, others[i % others.len()]));
+        for op in ops {
+            if let (Op::CopyDir(s, d) | Op::MoveDir(s, d)) = &op {
+                if is_within(d, s) {
+                    continue;
+                }
+            }
+            n += 1;
+            if let Outcome::Panic(m) = exec(&env.emb, &op) {
+                return Err(mk_fail(&op, format!("panicked: {}", m)));
+            }
+        }
+    }
+    Ok(n)
+}
